@@ -156,7 +156,8 @@ def build_world(osy, case):
         cls = {"Normalize": Normalize, "LogNorm": LogNorm}[n["cls"]]
         w.normobjs.append(cls(vmin=None if n.get("vmin") is None else float(frac(n["vmin"])),
                               vmax=None if n.get("vmax") is None else float(frac(n["vmax"]))))
-    w.edges = [[float(frac(t)) for t in e] for e in case.get("edges") or []]
+    # bin edges as numpy arrays: histogram1d's `to_bin_centers` does arithmetic on them (a plain list raises)
+    w.edges = [np.array([float(frac(t)) for t in e]) for e in case.get("edges") or []]
     w.layers = [w.dg.layer(l["key"], **opts_kwargs(w, l.get("opts") or {})) for l in case.get("layers") or []]
     w.optdicts = [opts_kwargs(w, o) for o in case.get("optdicts") or []]
     res = case.get("res")
@@ -282,7 +283,9 @@ def _diff(a, b, path, out):
             out.append((path + ".units", a["units"], b["units"]))
         _diff(a["magnitude"], b["magnitude"], path + ".magnitude", out)
         return
-    if {k: v for k, v in a.items()} != {k: v for k, v in b.items()}:
+    if kind == "ref":
+        return          # aliasing is compared through the identity lists (`raw`), numbering shifts with new objects
+    if {k: v for k, v in a.items() if k != "n"} != {k: v for k, v in b.items() if k != "n"}:
         out.append((path, _show(a), _show(b)))
 
 
